@@ -9,7 +9,7 @@ package centrifuge
 // sweeps happen on the virtual clock.  Operations are performed at x.5 s of the virtual clock, the
 // broker's sweepers wake at whole seconds.
 //
-//	reset meta=<s> limit=<n>                    -> ok
+//	reset meta=<s> limit=<n> [flight=1]         -> ok      (flight=1: Config.UseSingleFlight)
 //	pub tag=<n> size=<n> ttl=<s>                -> off=<o> ep=<epoch index>
 //	remove                                      -> ok
 //	adv n=<s>                                   -> ok
@@ -26,6 +26,11 @@ package centrifuge
 // broker's event handler the publication k below the top that History just reported (a lagging
 // PUB/SUB copy).  The real MemoryBroker is wrapped only to get that hook.
 //
+// ov=<limit> (cache mode): an application-level forward Node.History(channel, Limit: limit, no since)
+// is started first and parked inside the wrapped broker's History (before it reads anything); the
+// subscribe runs while it is parked; then it is released.  An unrelated forward read must not change
+// what cache recovery finds (with UseSingleFlight the two reads must not be coalesced).
+//
 // Epoch strings are replaced by their first-seen index (1, 2, …); request epoch 0 = "", an index
 // not seen yet = a foreign string.
 
@@ -37,6 +42,7 @@ import (
 	"os"
 	"strconv"
 	"strings"
+	"sync"
 	"testing"
 	"testing/synctest"
 	"time"
@@ -63,9 +69,23 @@ type verifRecSub struct {
 type verifRecBroker struct {
 	*MemoryBroker
 	after func(sp StreamPosition)
+
+	gateMu  sync.Mutex
+	armed   bool
+	release chan struct{}
 }
 
 func (b *verifRecBroker) History(ch string, opts HistoryOptions) ([]*Publication, StreamPosition, error) {
+	b.gateMu.Lock()
+	var rel chan struct{}
+	if b.armed && !opts.Filter.Reverse && opts.Filter.Since == nil {
+		b.armed = false
+		rel = b.release
+	}
+	b.gateMu.Unlock()
+	if rel != nil {
+		<-rel // parked before reading anything
+	}
 	pubs, sp, err := b.MemoryBroker.History(ch, opts)
 	if err == nil && b.after != nil {
 		f := b.after
@@ -207,9 +227,10 @@ func (s *verifRecScenario) peek() string {
 	return fmt.Sprintf("%d/%d/%d/%d/%d", top, s.epochIndex(stream.Epoch()), len(items), lo, hi)
 }
 
-func (s *verifRecScenario) start(meta, limit int) error {
+func (s *verifRecScenario) start(meta, limit int, flight bool) error {
 	node, err := New(Config{
 		LogLevel:                    LogLevelNone,
+		UseSingleFlight:             flight,
 		HistoryMetaTTL:              time.Duration(meta) * time.Second,
 		RecoveryMaxPublicationLimit: limit,
 	})
@@ -387,6 +408,17 @@ func (s *verifRecScenario) sub(ws []string) string {
 			}
 		}
 	}
+	ovS, hasOv := verifRecKV(ws, "ov")
+	ovLimit := 0
+	if hasOv && ovS != "-" {
+		n, err := strconv.Atoi(ovS)
+		if err != nil || mode != "cache" || n == 0 {
+			return "bad-op"
+		}
+		ovLimit = n
+	} else {
+		hasOv = false
+	}
 	s.cur = cur
 	s.broker.after = nil
 	if len(window) > 0 {
@@ -437,41 +469,75 @@ func (s *verifRecScenario) sub(ws []string) string {
 			Recover: req.Recover, Offset: req.Offset, Epoch: req.Epoch, Delta: req.Delta,
 		}}
 	}
-	cerr := client.connectCmd(connReq, &protocol.Command{}, time.Now(), crw.rw)
-	if cerr != nil && !cur.connect {
-		return "harness-error connect"
-	}
-	var herr error
+	var cerr, herr error
 	rw := testReplyWriterWrapper()
 	var connRes *protocol.SubscribeResult
 	connOutcome := ""
-	if cur.connect {
-		var d *Disconnect
-		var dv Disconnect
-		var e *Error
-		switch {
-		case cerr == nil:
-			if len(crw.replies) > 0 && crw.replies[0].Connect != nil {
-				connRes = crw.replies[0].Connect.Subs[verifRecChannel]
+	connectFailed := false
+	doSubscribe := func() {
+		cerr = client.connectCmd(connReq, &protocol.Command{}, time.Now(), crw.rw)
+		if cerr != nil && !cur.connect {
+			connectFailed = true
+			return
+		}
+		if cur.connect {
+			var d *Disconnect
+			var dv Disconnect
+			var e *Error
+			switch {
+			case cerr == nil:
+				if len(crw.replies) > 0 && crw.replies[0].Connect != nil {
+					connRes = crw.replies[0].Connect.Subs[verifRecChannel]
+				}
+				if connRes == nil {
+					connOutcome = "no-reply"
+				}
+				client.triggerConnect()
+				client.scheduleOnConnectTimers()
+			case errors.As(cerr, &d):
+				connOutcome = fmt.Sprintf("disc=%d", d.Code)
+			case errors.As(cerr, &dv):
+				connOutcome = fmt.Sprintf("disc=%d", dv.Code)
+			case errors.As(cerr, &e):
+				connOutcome = fmt.Sprintf("err=%d", e.Code)
+			default:
+				connOutcome = "harness-error connect " + cerr.Error()
 			}
-			if connRes == nil {
-				connOutcome = "no-reply"
-			}
+		} else {
 			client.triggerConnect()
 			client.scheduleOnConnectTimers()
-		case errors.As(cerr, &d):
-			connOutcome = fmt.Sprintf("disc=%d", d.Code)
-		case errors.As(cerr, &dv):
-			connOutcome = fmt.Sprintf("disc=%d", dv.Code)
-		case errors.As(cerr, &e):
-			connOutcome = fmt.Sprintf("err=%d", e.Code)
-		default:
-			connOutcome = "harness-error connect " + cerr.Error()
+			herr = client.handleSubscribe(req, &protocol.Command{Id: 1}, time.Now(), rw.rw)
 		}
+	}
+	if hasOv {
+		// park an unrelated forward read inside the broker, run the subscribe meanwhile, release
+		rel := make(chan struct{})
+		s.broker.gateMu.Lock()
+		s.broker.armed, s.broker.release = true, rel
+		s.broker.gateMu.Unlock()
+		bgDone := make(chan struct{})
+		go func() {
+			defer close(bgDone)
+			_, _ = s.node.History(verifRecChannel, WithHistoryFilter(HistoryFilter{Limit: ovLimit}))
+		}()
+		synctest.Wait()
+		subDone := make(chan struct{})
+		go func() {
+			defer close(subDone)
+			doSubscribe()
+		}()
+		synctest.Wait()
+		close(rel)
+		<-subDone
+		<-bgDone
+		s.broker.gateMu.Lock()
+		s.broker.armed = false
+		s.broker.gateMu.Unlock()
 	} else {
-		client.triggerConnect()
-		client.scheduleOnConnectTimers()
-		herr = client.handleSubscribe(req, &protocol.Command{Id: 1}, time.Now(), rw.rw)
+		doSubscribe()
+	}
+	if connectFailed {
+		return "harness-error connect"
 	}
 	synctest.Wait()
 
@@ -629,7 +695,8 @@ func verifRecoveryRun(t *testing.T) {
 						outs[i] = "bad-op"
 						continue
 					}
-					if err := s.start(meta, limit); err != nil {
+					fl, _ := verifRecKV(ws, "flight")
+					if err := s.start(meta, limit, fl == "1"); err != nil {
 						outs[i] = "error " + err.Error()
 						continue
 					}
